@@ -63,6 +63,7 @@ def main():
             for src, rel in demos:
                 os.makedirs(os.path.dirname(os.path.join(scratch, rel)), exist_ok=True)
                 shutil.copy(src, os.path.join(scratch, rel))
+            shutil.copytree(out, os.path.join(scratch, "OUT"))
             demo_cmd = meta.get("demo_cmd", "").replace(wt, scratch)
             denv = dict(ENV, WT=scratch)
             rc, o = sh(["bash", "-c", demo_cmd], cwd=scratch, env=denv, timeout=1200)
@@ -75,6 +76,7 @@ def main():
             ran["demo_tail"] = o[-600:]
             for src, rel in demos:
                 os.remove(os.path.join(scratch, rel))
+            shutil.rmtree(os.path.join(scratch, "OUT"), ignore_errors=True)
             rc, o = sh(["go", "test", "-vet=off", "-count=1", "./pkg/..."], cwd=scratch, timeout=1800)
             ran["existing_pkg_tests_pass_with_change"] = rc == 0
             for pl in ("plugins/device-injector", "plugins/ulimit-adjuster"):
